@@ -107,6 +107,27 @@ SEEDS = {
     needs="the lower end of a vertical edge of one operand lying on a non-vertical edge of the other, one of the edges meeting there having been split earlier at a non-representable point (small integer lattice, arbitrary slopes)"),
  "S37-c08-difference-subject-transition-negation": dict(prop="C08", origin="independent sub-agent (same change as S33/S34, found a third time; its demo shows the transposition asymmetry)",
     change="as S33", needs="as S33; after transposing the axes the pieces lie side by side and the result is correct, so the result does not commute with the transposition"),
+ "S38-c17-next-back-forgets-remaining": dict(prop="C17", origin="independent sub-agent",
+    change="IntoIter::next_back no longer decrements `remaining`",
+    needs="size_hint()/len() of the consuming iterator read after at least one next_back(); elements and order stay right"),
+ "S39-c12-generic-static-unit-roundoff": dict(prop="C12", origin="independent sub-agent (re-created from its report; demo geometry mine)",
+    change="segment_intersection: crossing parameters within one unit roundoff of 1 are snapped to 1; the roundoff is cached in a thread_local static inside the generic function, i.e. shared by the f32 and f64 instantiations",
+    needs="a history on one thread: first an f32 call with a real crossing, then an f64 call with a crossing about 5e-8 (relative) before a segment's end point"),
+ "S40-c05-prev-in-result-only-normal-edges": dict(prop="C05", origin="independent sub-agent",
+    change="compute_fields: prev becomes prev_in_result only if its edge type is Normal",
+    needs="operands sharing part of an edge that is in the result, and a result hole or nested contour directly above the shared edge (xor unaffected)"),
+ "S41-c09-trivial-result-swapped-when-clipping-left": dict(prop="C09", origin="independent sub-agent",
+    change="boolean_operation: the bounding-box shortcut calls trivial_result(clipping, subject) when the clipping box starts further left",
+    needs="difference with disjoint boxes and a clipping operand that starts left of the subject (e.g. a far-left clipping part)"),
+ "S42-c07-naive-collinearity-in-event-order": dict(prop="C07", origin="independent sub-agent",
+    change="Ord for SweepEvent: the exact collinearity test is replaced by a naive floating-point cross product",
+    needs="a needle-shaped vertex thinner than float precision at its scale (e.g. (0,0),(2^27,2^27-1),(2^27+1,2^27)) and a ring start/direction for which the heap pops the upper edge first"),
+ "S43-c13-overlap-endpoint-order-descending": dict(prop="C13", origin="independent sub-agent",
+    change="possible_intersection: the end points of a collinear overlap are ordered by `a.x > b.x || a.y > b.y` instead of by the event order",
+    needs="edges of the two operands overlapping along a line of NEGATIVE slope without sharing both end points"),
+ "S44-c02-noncontributing-unset-prev-in-result": dict(prop="C02", origin="independent sub-agent",
+    change="compute_fields: a NonContributing event gets its prev_in_result unset",
+    needs="operands sharing a boundary segment and a result ring that must be a hole looking straight down onto that segment"),
  "S27-c06-empty-clipping-early-return": dict(prop="C06", origin="independent sub-agent",
     change="boolean_operation: early return of the subject when the clipping operand has no polygons, regardless of the operation",
     needs="intersection with an empty MultiPolygon on the right-hand side"),
